@@ -105,6 +105,8 @@ class Agg:
                 self.nontrivial_keys.add(k)
         if r.get("shape"):
             self.shapes.add(r["shape"])
+        for h in r.get("shapes") or ():
+            self.shapes.add(h)
         for name, d in (("stats", self.stats), ("probes", self.probes), ("faults", self.faults)):
             for a, b in (r.get(name) or {}).items():
                 d[a] = d.get(a, 0) + b
@@ -270,7 +272,8 @@ def main(modname, argv):
 
     wall = time.time() - t0
     cov = {
-        "evaluations": agg.evaluations,
+        "evaluations": agg.runs if getattr(mod, "EVAL_RUNS", False) else agg.evaluations,
+        "generator_cases": agg.evaluations,
         "distinct_nontrivial": len(agg.nontrivial_keys),
         "distinct_cases": len(agg.keys),
         "rule": getattr(mod, "RULE", ""),
